@@ -279,6 +279,13 @@ def rounded_capacity_compare(ctx, rule, orientation=True):
 
 
 def run(ctx):
+    # whatever the plate-level transfers compute themselves (a fail-early total, a pre-check) is unit-consistent
+    from . import targets as _targets
+    from .. import uscan as _uscan2
+    for q_ in ('Container._transfer_slice', 'PlateSlicer._transfer'):
+        _uscan2.report_sinks(ctx, lambda cat: 'C03.R1' if cat in ('add-units', 'compare-units', 'to-storage', 'to-storage-dim',
+                                                                  'storage-compare', 'storage-label', 'qstr', 'convert-from-unit',
+                                                                  'truncating-division') else None, _targets.scan(ctx, q_))
     from .configtime import no_identity_test_against_literals as _no_is_literal
     _no_is_literal(ctx, 'C03.R5', classes=('Container', 'Plate', 'PlateSlicer', 'Unit'))
     from .configtime import refusals_not_rounded_for_display as _gate_digits
